@@ -352,6 +352,42 @@ int main(int argc, char **argv) {
       dump(atoi(tv[1])); printf("\n");
     } else if (!strcmp(op, "rdump")) {
       rdump(atoi(tv[1])); printf("\n");
+    } else if (!strcmp(op, "lower")) {   // lower <slot> <keyhex> <comp>: where the multi-level search (_lx_find_bounds) ends
+      int sl = atoi(tv[1]);
+      struct iwdb *db = dbs[sl];
+      uint8_t *kb; size_t kl = unhex(tv[2], &kb);
+      struct iwkv_val key = { .data = kb, .size = kl, .compound = n > 3 ? atoll(tv[3]) : 0 }, ekey;
+      uint8_t nbuf[IW_VNUMBUFSZ];
+      if (!db) { printf("INVALID_ARGS\n"); }
+      else if ((rc = _to_effective_key(db, &key, &ekey, nbuf))) { printf("%s\n", rcname(rc)); }
+      else {
+        struct iwlctx lx = { .db = db, .key = &ekey, .nlvl = -1 };
+        rc = _lx_find_bounds(&lx);
+        if (rc) { printf("%s\n", rcname(rc)); }
+        else {
+          off_t laddr = (lx.lower->flags & SBLK_DB) ? 0 : lx.lower->addr;
+          struct iwlctx lw = { .db = db, .nlvl = -1 };
+          struct sblk *h;
+          int idx = -1, i = 0, top = 0;
+          char lv[8192]; size_t ll = 0; lv[0] = 0;
+          if (!_sblk_at(&lw, db->addr, 0, &h)) {
+            top = h->lvl;
+            blkn_t nb = h->n[0];
+            _sblk_release(&lw, &h);
+            while (nb && i < 2000) {
+              if (_sblk_at(&lw, BLK2ADDR(nb), 0, &h)) break;
+              if (h->addr == laddr) idx = i;
+              ll += snprintf(lv + ll, sizeof(lv) - ll, "%s%d", i ? "," : "", h->lvl);
+              nb = h->n[0];
+              _sblk_release(&lw, &h);
+              ++i;
+            }
+          }
+          printf("OK idx=%d top=%d lv=%s\n", idx, top, ll ? lv : "-");
+        }
+        _lx_release_mm(&lx, 0);
+      }
+      free(kb);
     } else if (!strcmp(op, "struct")) {
       structure(atoi(tv[1])); printf("\n");
     } else if (!strcmp(op, "fsize")) {
